@@ -776,6 +776,17 @@ def rule_desc(rep: Report, rid="C03.desc") -> None:
         if in_loop and test is not None and test[0] == "bool" and test[1] == "and" and len(test[2]) == 2 and test[2][0] == src_list:
             pred_kind = blankness(test[2][1], last_text)
             trim_ok = pred_kind == "blank"
+    elif cut is not None and not muts and cut[0] == "firstof" and cut[2] == ("elem", cut[1]) and is_const(cut[3], 0):
+        # form F: end = next((i for i in range(len(tokens), 0, -1) if <nonblank(tokens[i - 1].matched_text)>), 0); tokens[:end]
+        lid = cut[1]
+        info = I.loops.get(lid, {})
+        conds = info.get("conds") or ()
+        detail = f"first index from the end where {fmt(conds[0], I) if len(conds) == 1 else conds}, over {fmt(info.get('iter'), I)}"
+        idx_text = ("attr", ("item", src_list, ("binop", "Sub", ("elem", lid), const(1))), "matched_text")
+        if info.get("iter") == ("call", "range", (("call", "len", (src_list,), ()), const(0), const(-1)), ()) and len(conds) == 1:
+            kind = blankness(conds[0], idx_text)
+            pred_kind = {"nonblank": "blank", "nonempty": "empty"}.get(kind)
+            trim_ok = kind == "nonblank"
     elif cut is not None and not muts and cut[0] == "loopout" and I.loops.get(cut[1], {}).get("kind") == "while":
         # form E: end = len(tokens); while end > 0 and <blank(tokens[end - 1].matched_text)>: end -= 1
         lid, var = cut[1], cut[2]
